@@ -593,6 +593,30 @@ def corpus(pid):
                     "helpers": [[["wait_running", 0], ["adopt", 0, 2], ["sleep", 0.3], ["mark", "m"], ["set", "fail"]]],
                     "timeout": 10, "linger": 0.3,
                     "meta": {"family": "fail", "fails": [["p", 0, "asyncio", ["raise", 0]], ["p", 1, "trio", ["return", 0]]], "immediate": False}})
+    if pid == "C02":
+        for fl in ("asyncio", "threading"):
+            out.append({"runners": [{"accept_delay": 0.05}],
+                        "payloads": {"0": {"flavour": fl, "script": [["wait", "go"], ["raise", 12]]},
+                                     "1": {"flavour": "trio", "script": [["forever"]], "cleanup": {"sync": 1, "shield": 0.3, "shield_steps": 3}},
+                                     "2": {"flavour": "asyncio", "script": [["forever"]], "cleanup": {"sync": 2}}},
+                        "services": {}, "main": [["adopt", 0, 0], ["adopt", 0, 1], ["adopt", 0, 2], ["accept", 0]],
+                        "helpers": [[["wait_running", 0], ["sleep", 0.2], ["set", "go"]]],
+                        "timeout": 10, "linger": 0.7, "meta": {"family": "fail", "fails": [["p", 0, fl, ["raise", 12]]]}})
+    if pid == "C10":
+        # known finding witness: asyncio payload raising TimeoutError executed from an outside thread;
+        # plus every other exception class / a falsy value for each flavour
+        payloads = {"0": {"flavour": "trio", "script": [["beat", 3000, 0.01]]}}
+        h = [["wait_running", 0]]
+        k = 1
+        for fl in FLS:
+            for end in (["raise", 11], ["raise", 0], ["return", 0], ["return", 10], None):
+                payloads[str(k)] = {"flavour": fl, "script": [["step"]] + ([end] if end else []), "args": [k, "a"], "kwargs": {"k": None}}
+                h.append(["execute", 0, k])
+                k += 1
+        h += [["sleep", 0.2], ["mark", "m"], ["shutdown", 0]]
+        out.append({"runners": [{"accept_delay": 0.05}], "payloads": payloads, "services": {},
+                    "main": [["adopt", 0, 0], ["accept", 0]], "helpers": [h], "timeout": 10, "linger": 0.3,
+                    "meta": {"family": "exec"}})
     return out
 
 
@@ -727,6 +751,12 @@ def oracle_C02(v):
         r = e[2]
         if e[3][0] == "exclusive":
             continue
+        # known finding: SystemExit raised by an asyncio/thread background payload kills the asyncio loop;
+        # accept() then raises while trio payloads are still unwinding
+        loopkill = any(e2[3] == "raise" and e2[4] == 12 and not (e2[1] == "p" and e2[2] in ex)
+                       and v.spec(e2[1], e2[2])["flavour"] != "trio" and own.get((e2[1], e2[2]), 0) == r
+                       for (i2, _t2, _x2, e2) in v.find("Finish") if i2 < j)
+        n0 = len(out)
         for key, fl in cor.items():
             if own.get(key, 0) != r or (key[0] == "p" and key[1] in ex):
                 continue
@@ -748,6 +778,8 @@ def oracle_C02(v):
                 if e2[0] in ("Step", "Enter", "CleanStep", "Finish", "Cancelled") and (e2[1], e2[2]) == key:
                     out.append("step-after-end: %s payload %s%d executed %s after accept ended" % (fl, key[0], key[1], e2[0]))
                     break
+        if loopkill:
+            out[n0:] = [("KNOWN:C02-systemexit-skips-trio-cleanup:" + m) if " trio payload" in m else m for m in out[n0:]]
     return out
 
 
